@@ -117,6 +117,14 @@ func propTable() map[string]*PropSpec {
 				q = append(q, c)
 			}
 		}
+		for kind := 0; kind <= 4; kind++ {
+			c := rc(fmt.Sprintf("C12_MutateFuture/kind=%d", kind), ".", "C12_MutateFuture", map[string]int{"kind": kind})
+			c.RequireReach = []string{"C12.future.synced"}
+			th = append(th, c)
+			if kind == 0 || kind == 3 {
+				q = append(q, c)
+			}
+		}
 		fq := rc("C12_FullQueue", ".", "C12_FullQueue", nil)
 		fq.MaxLoop = 1200
 		fq.RequireReach = []string{"C12.fullqueue.done"}
@@ -238,7 +246,7 @@ func propTable() map[string]*PropSpec {
 				}
 			}
 		}
-		for kind := 0; kind <= 2; kind++ {
+		for kind := 0; kind <= 3; kind++ {
 			c := rc(fmt.Sprintf("C08_FutureMessage/kind=%s", kinds[kind]), ".", "C08_FutureMessage", map[string]int{"kind": kind})
 			c.RequireReach = []string{"C08.future.influence"}
 			q = append(q, c)
@@ -268,7 +276,7 @@ func propTable() map[string]*PropSpec {
 		locked.Name += "/me=2"
 		locked.Params["me"] = 2
 		_ = locked // single-proof variant: thorough tier only (the two-proof configuration covers the locked path)
-		q = append(q, nv(3, 3, 0, 0), nv(3, 2, 0, 0), nv(0, 3, 0, 0), two)
+		q = append(q, nv(3, 3, 0, 0), nv(3, 2, 0, 0), nv(0, 3, 0, 0), two, nv(7, 3, 0, 0))
 		th = append(th, locked, two)
 		q[0].RequireReach = []string{"C07.accepted_fresh"}
 		q[3].RequireReach = []string{"C07.accepted_locked"}
@@ -278,14 +286,26 @@ func propTable() map[string]*PropSpec {
 			q = append(q, c)
 			th = append(th, c)
 		}
-		for _, pf := range []int{0, 3, 4} {
+		for _, pf := range []int{0, 3, 4, 7} {
 			for votes := 0; votes <= 4; votes++ {
 				th = append(th, nv(pf, votes, 0, 0))
 			}
 			th = append(th, nv(pf, 3, 1, 2), nv(pf, 3, 1, 3), nv(pf, 3, 2, 2), nv(pf, 3, 4, 2))
 		}
 		th = append(th, nv(3, 3, 3, 2), nv(3, 4, 1, 2), nv(3, 3, 5, 2))
-		t["C07"] = &PropSpec{ID: "C07", Quick: q, Thorough: th,
+		fnv := rc("C07_FutureNewView", ".", "C07_FutureNewView", nil)
+		fnv.RequireReach = []string{"C07.future.adopted", "C07.future.ignored"}
+		q = append(q, fnv)
+		th = append(th, fnv)
+		for _, me := range []int{0, 1, 2} {
+			c := rc(fmt.Sprintf("C07_HighestProof/me=%d", me), ".", "C07_HighestProof", map[string]int{"me": me})
+			c.RequireReach = []string{"C07.hp.highest_proposed"}
+			th = append(th, c)
+			if me == 1 {
+				q = append(q, c)
+			}
+		}
+		t["C07"] = &PropSpec{ID: "C07", Quick: q, Thorough: th, LabelPrefixes: []string{"C07."},
 			Assumptions: []string{"ideal signature registry; proposal validation / commitment stubs; committee of 4 equal weights; node index symbolic"},
 			Bounds:      []string{"one symbolic NEW_VIEW (all header, embedded-proposal and per-vote fields symbolic, 0..4 votes, listed proof masks, <=3 PREPARE senders per proof) or one symbolic PREPREPARE, delivered in prefix states fresh / timed-out / timed-out-with-lock"},
 			Outside:     []string{"the clause about a correct leader proposing only after collecting votes is decided by the C09 harness (leader side); more than 4 votes; several proofs beyond the listed masks"},
@@ -309,6 +329,22 @@ func propTable() map[string]*PropSpec {
 				q = append(q, c)
 			}
 		}
+		// delayed view-0 COMMITs after a view change and a symbolic later-view PREPREPARE
+		for _, me := range []int{1, 2, 3} {
+			for _, prep := range []int{0, 1} {
+				for _, to := range []int{1, 2} {
+					for _, pr := range []int{0, 1} {
+						c := rc(fmt.Sprintf("C03_LateCommit/me=%d/prepared=%d/timeouts=%d/prepare=%d", me, prep, to, pr), ".", "C03_LateCommit", map[string]int{"me": me, "prepared": prep, "timeouts": to, "prepare": pr})
+						c.RequireReach = []string{"C03.late.commit"}
+						th = append(th, c)
+						if pr == 0 && ((me == 2 && to == 1) || (me == 1 && to == 2 && prep == 1)) {
+							c.RequireReach = []string{"C03.late.commit", "C03.late.later_proposal_stored"}
+							q = append(q, c)
+						}
+					}
+				}
+			}
+		}
 		q4 := append([]RunConfig{}, q...)
 		th4 := append([]RunConfig{}, th...)
 		lr := rc("C04_LeaderReproposal", ".", "C04_LeaderReproposal", nil)
@@ -324,6 +360,16 @@ func propTable() map[string]*PropSpec {
 				if me == 2 {
 					q4 = append(q4, c)
 				}
+			}
+		}
+		// the node still holds the (unprepared) view-0 proposal when the symbolic NEW_VIEW arrives
+		for _, me := range []int{2, 3} {
+			c := rc(fmt.Sprintf("C04_NewViewCommit/me=%d/proofmask=0/prefix=7", me), ".", "C04_NewViewCommit", map[string]int{"me": me, "proofmask": 0, "prefix": 7})
+			c.RequireReach = []string{"C04.nv.committed"}
+			c.MaxPaths = 400000
+			th4 = append(th4, c)
+			if me == 2 {
+				q4 = append(q4, c)
 			}
 		}
 		common := []string{"ideal signature registry, proposal/commitment stubs, committee of 4 equal weights", "the validating peer is a second real WorkerLoop with the same committee and (empty) previous proof"}
@@ -355,6 +401,14 @@ func propTable() map[string]*PropSpec {
 			th = append(th, c)
 			if w == 0 || w == 2 {
 				c.RequireReach = []string{"C09.nv.locked"}
+				q = append(q, c)
+			}
+		}
+		for _, w := range []int{0, 2} {
+			c := rc(fmt.Sprintf("C09_LeaderViews/weights=%d", w), ".", "C09_LeaderViews", map[string]int{"weights": w})
+			c.RequireReach = []string{"C09.nv.locked"}
+			th = append(th, c)
+			if w == 0 {
 				q = append(q, c)
 			}
 		}
@@ -391,6 +445,16 @@ func propTable() map[string]*PropSpec {
 			c := mk(1, 6, 2, seq)
 			th = append(th, c)
 			q = append(q, c)
+		}
+		// elected leader (prefix 8), then: delayed NEW_VIEW of an older view / late votes / symbolic messages
+		for _, seq := range []int{78, 87, 88, 68, 38, 48, 58, 8} {
+			for _, me := range []int{1, 2, 3} {
+				c := mk(me, 8, 2, seq)
+				th = append(th, c)
+				if me == 2 && (seq == 78 || seq == 88 || seq == 38) {
+					q = append(q, c)
+				}
+			}
 		}
 		for _, seq := range []int{4, 40, 44, 404, 440, 414, 441, 144, 43, 434, 34, 340, 341, 403, 413, 12, 120, 124, 412, 421, 241, 142, 466, 646, 664, 661, 616, 166, 665, 656, 460, 640} {
 			for _, me := range []int{1, 2} {
@@ -429,7 +493,15 @@ func propTable() map[string]*PropSpec {
 		q := []RunConfig{mkV(2, 1), mkV(3, 2), mkN(1, -1), mkN(1, 2), mkP(2), mkP(1), mkX(0, 3), mkX(3, 0), mkX(0, 2)}
 		th := append([]RunConfig{}, q...)
 		th = append(th, mkV(3, 1), mkV(2, 2), mkN(0, -1), mkN(2, -1), mkN(1, 0), mkN(1, 3), mkN(2, 2), mkP(3), mkX(2, 0), mkX(2, 3), mkX(3, 2))
-		t["C11"] = &PropSpec{ID: "C11", Quick: q, Thorough: th,
+		for _, me := range []int{0, 1, 2} {
+			c := rc(fmt.Sprintf("C07_HighestProof/me=%d", me), ".", "C07_HighestProof", map[string]int{"me": me})
+			c.RequireReach = []string{"C07.hp.highest_proposed"}
+			th = append(th, c)
+			if me == 2 {
+				q = append(q, c)
+			}
+		}
+		t["C11"] = &PropSpec{ID: "C11", Quick: q, Thorough: th, LabelPrefixes: []string{"C11."},
 			Assumptions: []string{"ideal signature registry, proposal/commitment stubs; committee of 4 equal weights; producer and consumer are two real nodes sharing registry and committee"},
 			Bounds:      []string{"producer accepts <=2 fully symbolic adversarial inputs (PREPAREs before its vote; VIEW_CHANGEs with/without proof before its NEW_VIEW) plus listed honest traffic; every VIEW_CHANGE / NEW_VIEW / PREPARE / COMMIT it then emits is delivered to a correct peer in a state satisfying the statement's precondition (leader of the addressed view; view not higher, no proposal yet)"},
 			Outside:     []string{"more than 2 adversarial inputs; consumers in views above 1; committees other than 4"},
